@@ -65,8 +65,8 @@ RLIMIT_AS = 3 << 30
 
 SIZES = {
     # per shard: corpus, mut, soup, attr, splice, random pumps ; shards
-    "quick": dict(shards=32, corpus=30, mut=1500, soup=450, attr=700, splice=250, rpump=4),
-    "thorough": dict(shards=64, corpus=60, mut=16000, soup=5000, attr=8000, splice=3000, rpump=30),
+    "quick": dict(shards=16, corpus=40, mut=2600, soup=700, attr=1200, splice=500, rpump=6, pump_maxlen=32768),
+    "thorough": dict(shards=32, corpus=100, mut=30000, soup=9000, attr=14000, splice=6000, rpump=60, pump_maxlen=131072),
 }
 
 
@@ -84,7 +84,7 @@ def plan(tier, seed):
         jobs.append({"mode": "fuzz", "tier": tier, "seed": seed, "shard": i, "nshards": n,
                      "corpus": z["corpus"], "mut": int(z["mut"] * scale), "soup": int(z["soup"] * scale),
                      "attr": int(z["attr"] * scale), "splice": int(z["splice"] * scale), "rpump": int(z["rpump"] * scale),
-                     "fixed_pumps": True, "deep_probe": i == 0})
+                     "fixed_pumps": True, "deep_probe": i == 0, "pump_maxlen": z["pump_maxlen"]})
     return jobs
 
 
